@@ -46,7 +46,7 @@ func c07AliasText(names []string, stream bool) string {
 		} else {
 			fmt.Fprintf(&sb, "s%d:\n", i)
 		}
-		fmt.Fprintf(&sb, "%s# defaults of section %d\n%sdefaults: &%s\n%s  replicas: %d # c%d\n%s  tier: 't%d'\n%sspec: *%s # uses %d\n", ind, i, ind, n, ind, i, i, ind, i, ind, n, i)
+		fmt.Fprintf(&sb, "%s# defaults of section %d\n%sdefaults: &%s\n%s  replicas: %d # c%d\n%s  tier: 't%d'\n%s  zone: z%d # z\n%sspec: *%s # uses %d\n", ind, i, ind, n, ind, i, i, ind, i, ind, i, ind, n, i)
 	}
 	return sb.String()
 }
@@ -78,6 +78,20 @@ func c07AliasCheck(cs c07Case) (kind, detail string) {
 		i := strings.Index(base, old)
 		j := strings.LastIndex(base[:i], "\n") + 1
 		want = base[:j] + base[i+len(old):]
+	case "delete-two-named-backwards":
+		// two entries of one map, the later one named first
+		q := strings.Replace(p, ".replicas", ".tier", 1)
+		expr = "del(" + q + ", " + p + ")"
+		i := strings.Index(base, old)
+		j := strings.LastIndex(base[:i], "\n") + 1
+		want = base[:j] + base[i+len(old):]
+		tier := fmt.Sprintf("tier: 't%d'\n", cs.Section)
+		if strings.Count(want, tier) != 1 {
+			return "skip", "baseline lacks the line"
+		}
+		i = strings.Index(want, tier)
+		j = strings.LastIndex(want[:i], "\n") + 1
+		want = want[:j] + want[i+len(tier):]
 	default:
 		return "skip", ""
 	}
@@ -316,6 +330,24 @@ func c07Check(cs c07Case) (kind, detail string) {
 		expr = p + ` = "new"`
 	case "subtree":
 		expr = p + ` = {"n": 1}`
+	case "computed-index":
+		// the same assignment with the last step worked out by an expression that looks at a path the document does not have
+		if len(cs.Target) == 0 {
+			return "skip", ""
+		}
+		last := cs.Target[len(cs.Target)-1]
+		step := strconv.Quote(last)
+		if strings.HasPrefix(last, "#") {
+			step = last[1:]
+		}
+		parent := c07PathExpr(cs.Target[:len(cs.Target)-1])
+		if parent == "." {
+			parent = ""
+		}
+		expr = parent + "[.zzmissing.deeper // " + step + `] = "new"`
+		if parent == "" {
+			expr = "." + expr
+		}
 	case "delete":
 		if len(cs.Target) == 0 {
 			return "skip", ""
@@ -555,6 +587,9 @@ func c07Check(cs c07Case) (kind, detail string) {
 	}
 	if ukind == "copy-then-rename-key" {
 		ukind = "copy-then-edit"
+	}
+	if ukind == "computed-index" {
+		ukind = "scalar"
 	}
 	wholeTarget := ukind != "create-below" && ukind != "create-beside" && ukind != "append" && ukind != "copy-then-edit"
 	commentInT := func(text string) bool {
@@ -797,7 +832,7 @@ func c07Run(c *fw.Ctx) error {
 	for _, e := range []string{`{"k": [1, "a", 1], "m": {"k": "a", "m": 1}}`, `[{"k": 1, "m": "a"}, {"k": "a"}, 1]`, `{"k": {"m": [1, {"k": "a"}]}, "m": 1}`} {
 		shapes = append(shapes, fromJSONText(e))
 	}
-	kinds := []string{"scalar", "subtree", "delete", "delete-via-key", "append", "arith", "create-below", "create-beside", "copy-then-edit", "copy-then-rename-key", "copy-into-seq-then-delete-first"}
+	kinds := []string{"scalar", "subtree", "delete", "delete-via-key", "append", "arith", "create-below", "create-beside", "copy-then-edit", "copy-then-rename-key", "copy-into-seq-then-delete-first", "computed-index"}
 	var kindDecos [][2]string
 	for _, deco := range []string{"", "foots", "aliases"} {
 		for _, k := range kinds {
@@ -818,7 +853,7 @@ func c07Run(c *fw.Ctx) error {
 					names[i] = []string{"d", "e"}[(code>>i)&1]
 				}
 				for sec := 0; sec < n; sec++ {
-					for _, k := range []string{"scalar", "arith", "delete"} {
+					for _, k := range []string{"scalar", "arith", "delete", "delete-two-named-backwards"} {
 						idx++
 						if !c.Mine(idx) {
 							continue
